@@ -81,7 +81,7 @@ def spec_op(w, op, trouble):
     return assigns
 
 
-def run(w, ops, first, want_meta):
+def run(w, ops):
     answers, assigns, provides, trouble = [], [], [], []
     for op in ops:
         k = op[0]
@@ -143,7 +143,7 @@ def one_case(case, limit):
     first_bases(w, first)
     answers, assigns, provides, trouble = [], [], [], []
     for op in case["ops"]:
-        a, s, p, t = run(w, [op], first, True)
+        a, s, p, t = run(w, [op])
         answers += a
         assigns += s
         provides += p
@@ -154,8 +154,8 @@ def one_case(case, limit):
     for i in probes(case["ops"], limit):
         w2 = new_world(case)
         pre = [op for op in case["ops"][:i] if op[0] in MUTATIONS]
-        run(w2, pre, [], False)
-        a, _s, _p, _t = run(w2, [case["ops"][i]], [], False)
+        run(w2, pre)
+        a, _s, _p, _t = run(w2, [case["ops"][i]])
         erased.append([i, a[0]])
     return {"specs": [{"kind": kinds[i], "bases": first[i]} for i in range(len(first))],
             "answers": answers, "assigns": assigns, "provides": provides, "erased": erased,
